@@ -633,6 +633,16 @@ func deriveTripCount(loop *Loop) {
 		}
 	}
 
+	// The closed forms below divide by the step: they count iterations only for a step that is known
+	// to move towards the limit. With a step of unknown or opposite sign ("for i := 0; i < n; i--")
+	// the formula would still evaluate to a number for some n, and that number is not the count.
+	if !isNEQ {
+		if stepC == nil || (isUpCounting && stepC.Sign() <= 0) || (!isUpCounting && stepC.Sign() >= 0) {
+			loop.TripCount = &SCEVUnknown{Value: nil}
+			return
+		}
+	}
+
 	if isNEQ {
 		// NEQ only valid for step 1 or -1
 		stepVal := iv.Step.EvaluateAt(nil, nil)
